@@ -15,6 +15,7 @@ import (
 	"github.com/foxboron/go-uefi/efi/device"
 	"github.com/foxboron/go-uefi/efi/efitest"
 	efifs "github.com/foxboron/go-uefi/efi/fs"
+	"github.com/foxboron/go-uefi/efivar"
 	"github.com/foxboron/go-uefi/efivarfs/testfs"
 
 	"verif/gen/dpgen"
@@ -481,6 +482,16 @@ func c18Run(c *hx.Ctx, tier, unit string) {
 			}
 		}
 		rec(nil)
+		// a caller that filled in the exported "Boot####" template to read one entry through the generic
+		// accessor: the names of BootOrder are made from the numbers, not from that variable
+		{
+			saved := efivar.BootEntry.Name
+			efivar.BootEntry.Name = "Boot001A"
+			for _, l := range [][]uint16{{3, 0x1a, 0x2001}, {0}, {0xffff, 0x1a}} {
+				c18Order(c, l)
+			}
+			efivar.BootEntry.Name = saved
+		}
 		// long lists: one number repeated, two alternating, a run in the middle
 		for _, n := range []int{5, 64, 300} {
 			same := make([]uint16, n)
